@@ -242,6 +242,18 @@ pub fn generate(g: &mut Gen, thorough: bool) {
             }
         }
     }
+    // 1d. a value that is not of the parameter's type is refused with an error that names the parameter - for the
+    // indexed spellings of a name as for the plain one (an unknown ellipsoid is refused by the ellipsoid module, whose
+    // error names the ellipsoid, not the parameter: refusal is all that is asked for there)
+    for (def, key) in [
+        ("tmerc lon_0=nine", "lon_0"), ("helmert x=abc", "x"), ("merc lat_ts=1:2:3:4", "lat_ts"), ("lcc lat_1=", "lat_1"), ("laea lat_0=\u{e9}", "lat_0"),
+        ("utm zone=thirty", "zone"), ("utm zone=-3", "zone"), ("utm zone=3.5", "zone"), ("helmert translation=1,x,3", "translation"), ("axisswap order=2,q", "order"), ("stack roll=a,b", "roll"),
+        ("cart ellps=nonesuch", ""), ("molodensky ellps_0=nonesuch ellps_1=GRS80 dx=1", ""), ("molodensky ellps_0=WGS84 ellps_1=nonesuch dx=1", ""), ("molodensky ellps_1=nonesuch dx=1", ""),
+        ("molodensky ellps_0=nonesuch", ""), ("tmerc k_0=half", "k_0"), ("omerc latc=4 lonc=115 alpha=steep", "alpha"),
+    ] {
+        g.push(format!("S_C16E\t{}\t{}", crate::wire::escape(def), crate::wire::escape(key)), "oracle-error-names-the-parameter", true);
+        g.push(super::op_line("default", &[], &[], def, "tree", "F", ""), "model-error-names-the-parameter", true);
+    }
     // 1c. the last of repeated keys wins, whatever the spellings of the occurrences (key=value, bare flag, `=true`)
     {
         let data = super::probe_data(2);
